@@ -1130,6 +1130,8 @@ impl Clock for RecClock {
         self.k += 1;
         match a {
             None => SyncStatus::Synchronized,
+            // u64::MAX stands for the largest lag a clock can report.
+            Some(u64::MAX) => SyncStatus::OutOfSync(Duration::MAX),
             Some(lag) => SyncStatus::OutOfSync(Duration::from_nanos(lag)),
         }
     }
@@ -1177,7 +1179,7 @@ fn conv_err(e: ExecutionError) -> E {
             E::Panic { model, payload: p }
         }
         ExecutionError::Timeout => E::Timeout,
-        ExecutionError::OutOfSync(d) => E::OutOfSync(d.as_nanos() as u64),
+        ExecutionError::OutOfSync(d) => E::OutOfSync(if d == Duration::MAX { u64::MAX } else { d.as_nanos().min(u64::MAX as u128 - 1) as u64 }),
         ExecutionError::BadQuery => E::BadQuery,
         ExecutionError::InvalidDeadline(t) => E::InvalidDeadline(off(t)),
     }
